@@ -2,7 +2,21 @@
 """Generate MANIFEST.json from the claim table below (kept in one place so it stays valid)."""
 import json, os
 HERE = os.path.dirname(os.path.abspath(__file__))
+import sys
+sys.path.insert(0, HERE)
 from claims import CLAIMS, NOT_APPLICABLE, NOTES
+from rules._deps import INCLUDES
+
+
+def included_text(pid):
+    """Generated from rules/_deps.py so that the claim cannot drift from what the check evaluates."""
+    parts = []
+    for name, rules in INCLUDES.get(pid, []):
+        parts.append("%s (all its rules)" % name if rules is None else "%s: %s" % (name, ", ".join(r.split(".", 1)[1] for r in rules)))
+    if not parts:
+        return ""
+    return (" Rule sets of neighbouring properties that are necessary conditions of this one are evaluated by this check as well "
+            "(table and reasons: rules/_deps.py; no transitivity): " + "; ".join(parts) + ".")
 
 checks = []
 for pid, c in sorted(CLAIMS.items()):
@@ -13,7 +27,7 @@ for pid, c in sorted(CLAIMS.items()):
         "evidence_file": "/verif/evidence/%s.json" % pid,
         "replay_cmd_template": "./check %s --replay {path}" % pid,
         "engine": "msqlx+rules",
-        "level_claimed": {"category": c.get("level", "other"), "text": c["text"], "design_ref": c.get("ref", "DESIGN.md section 4 (%s)" % pid)},
+        "level_claimed": {"category": c.get("level", "other"), "text": c["text"] + included_text(pid), "design_ref": c.get("ref", "DESIGN.md section 4 (%s)" % pid)},
         "level_note": c["note"],
         "technique": c["technique"],
     })
